@@ -4,6 +4,8 @@ from . import oracles_design as OD
 from . import i11_api
 from . import oracles_design2 as OD2
 from . import i7_layout
+from . import i8_pipeline
+from . import i9_randomgen
 
 TB_COMMON = [
     "Lean 4.33.0 kernel (thorough tier: re-checked with leanchecker)",
@@ -54,7 +56,7 @@ REGISTRY = {
         "trusted_base": TB_COMMON + ["the printed table is parsed by splitting on ' | ' (level names without that separator)", "float formatting of percentages is compared numerically (1e-9), never as text"],
         "assumptions": ["level names are strings"],
     },
-    "C05": _design_prop(OD2.oracle_c05),
+    "C05": dict(_design_prop(OD2.oracle_c05, quick=50), correspondence=[i9_randomgen.corr_randomgen]),
     "C18": dict(_design_prop(OD2.oracle_c18, quick=30), correspondence=[i7_layout.corr_sharing],
                 oracle=[OD2.oracle_c18, OD2.oracle_c18_blocks]),
     "C19": _design_prop(OD2.oracle_c19),
@@ -66,14 +68,14 @@ REGISTRY = {
     "C25": _design_prop(OD2.oracle_c25),
     "C26": _design_prop(OD2.oracle_c26),
     "C29": _design_prop(OD2.oracle_c29),
-    "C01": dict(_design_prop(OD.oracle_c01, quick=50), correspondence=[i7_layout.corr_kinarow],
+    "C01": dict(_design_prop(OD.oracle_c01, quick=50), correspondence=[i7_layout.corr_kinarow, i8_pipeline.corr_pipeline],
                 oracle=[OD.oracle_c01, i7_layout.oracle_kinarow]),
-    "C02": _design_prop(OD.oracle_c02),
-    "C03": _design_prop(OD.oracle_c03),
-    "C04": _design_prop(OD.oracle_c04),
-    "C06": _design_prop(OD.oracle_c06),
-    "C07": _design_prop(OD.oracle_c07),
-    "C08": _design_prop(OD.oracle_c08),
+    "C02": dict(_design_prop(OD.oracle_c02, quick=50), correspondence=[i8_pipeline.corr_pipeline]),
+    "C03": dict(_design_prop(OD.oracle_c03, quick=50), correspondence=[i8_pipeline.corr_pipeline]),
+    "C04": dict(_design_prop(OD.oracle_c04, quick=50), correspondence=[i9_randomgen.corr_randomgen]),
+    "C06": dict(_design_prop(OD.oracle_c06, quick=50), correspondence=[i9_randomgen.corr_randomgen]),
+    "C07": dict(_design_prop(OD.oracle_c07, quick=45), correspondence=[i8_pipeline.corr_pipeline, i9_randomgen.corr_randomgen]),
+    "C08": dict(_design_prop(OD.oracle_c08, quick=50), correspondence=[i8_pipeline.corr_pipeline]),
     "C09": _design_prop(OD.oracle_c09),
     "C16": _design_prop(OD.oracle_c16),
     "C17": dict(_design_prop(OD.oracle_c17, quick=50), correspondence=[i7_layout.corr_conforms]),
